@@ -662,10 +662,10 @@ def check_v4_names(ctx, c17, t, sub_band, sub_product):
         ts.delete('sub_band')
         ts['sub_band'] = sub_band
     case = dict(v4_names=True, timing=c17.timing_case(t), sub_band=sub_band, sub_product=sub_product)
-    x = None
+    tmp = v4.scratch_dir('c17names')
     try:
         x = v4.build_v4(T=3, F=4, seed=ctx.seed, sync_time=t['sync'], first_timestamp=t['first'], int_time=t['int_time'],
-                        sub_product=sub_product, telstate_hook=hook, bandwidth=16.0, center_freq=1284.0,
+                        sub_product=sub_product, telstate_hook=hook, bandwidth=16.0, center_freq=1284.0, tmp=tmp,
                         source_kwargs=dict(preselect=dict(channels=slice(1, 3))),
                         open_kwargs=dict(preselect=dict(channels=slice(1, 3))))
         s = x.d.spectral_windows[0]
@@ -673,8 +673,7 @@ def check_v4_names(ctx, c17, t, sub_band, sub_product):
     except Exception as e:
         got = [type(e).__name__, '']
     finally:
-        if x is not None:
-            v4.cleanup(x)
+        fx6.rmtree(tmp)
     want = [sub_product, dict(l='L', s='S', u='UHF', x='X').get(sub_band, 'KeyError')]
     if want[1] == 'KeyError':
         want = ['KeyError', '']
@@ -720,3 +719,75 @@ def check_other_format(ctx):
             ctx.traces_validated += 1
     finally:
         fx6.rmtree(tmp)
+
+
+# ---------------------------------------------------------------------------- (n) where the CBF dump period comes from
+
+CBF_CHAIN = ['src_streams', 'corr_int_time', 'corr_n_accs', 'corr_src_streams', 'feng_instrument_dev_name',
+             'i0_scale_factor_timestamp']
+CBF_DROPS = [None] + [('missing', k) for k in CBF_CHAIN] + [('empty', 'src_streams'), ('empty', 'corr_src_streams')]
+
+
+def enc_attr(v):
+    if isinstance(v, str):
+        return [0, codes(v)]
+    if isinstance(v, list):
+        return [1, [codes(x) for x in v]]
+    return [2, q(v)]
+
+
+def check_cbf_chain(ctx, c17, t, drop, T=3):
+    """A full RDB, a lite one, and RDBs with ONE link of the CBF attribute chain missing / empty: the CBF dump period the
+    data set reports and whether its timestamps are corrected."""
+    t = dict(t, cbf=t['cbf'] or 0.5)
+
+    def hook(ts, cbid, stream):
+        if drop is None:
+            return
+        kind, key = drop
+        full = ts.join(stream, key) if key == 'src_streams' else key
+        ts.delete(full)
+        if kind == 'empty':
+            ts[full] = []
+    present = dict(src_streams=['corr'], corr_int_time=t['cbf'], corr_n_accs=64, corr_src_streams=['feng'],
+                   feng_instrument_dev_name='i0', i0_scale_factor_timestamp=1712e6)
+    if drop is not None:
+        if drop[0] == 'missing':
+            del present[drop[1]]
+        else:
+            present[drop[1]] = []
+    case = dict(cbf_chain=True, timing=c17.timing_case(t), drop=None if drop is None else list(drop))
+    tmp = v4.scratch_dir('c17cbf')
+    try:
+        x = v4.build_v4(T=T, F=4, seed=ctx.seed, sync_time=t['sync'], first_timestamp=t['first'], int_time=t['int_time'],
+                        cbf=(t['cbf'], 64, 1712e6), tmp=tmp,
+                        sub_pool_resources=('cbf_dev_2,sdp_1,m000,m001' if t['cmc2'] else 'cbf_1,sdp_1,m000,m001'),
+                        sub_product=('c856M4k' if t['cbf4k'] else 'c856M1k'), telstate_hook=hook,
+                        open_kwargs=dict(time_offset=t['off']))
+        got_p = x.d.cbf_dump_period
+        got_ts = [exact(v) for v in x.d.timestamps]
+    except Exception as e:
+        ctx.disagree('what=exception;stream=cbf_chain;drop=%s;exc=%s' % (drop, type(e).__name__), case, repr(e)[:300], None,
+                     'opening an RDB with an incomplete CBF attribute chain raised')
+        return
+    finally:
+        fx6.rmtree(tmp)
+    want_p = t['cbf'] if drop is None else None
+    want_ts = c17.spec_py(dict(t, cbf=want_p), 0, T)
+    if got_p != want_p or got_ts != want_ts:
+        ctx.disagree('what=cbf_period;drop=%s;start=%s' % ('none' if drop is None else drop[0] + ':' + drop[1], c17.where(t)),
+                     case, [got_p] + [float(v) for v in got_ts[:2]], None,
+                     'CBF dump period / timestamps: a complete attribute chain must give the period (and the correction '
+                     'before the fix date), an incomplete one must count as a lite RDB (no correction)',
+                     spec=[want_p] + [float(v) for v in want_ts[:2]])
+    if ctx.model_ok:
+        mo = ctx.model([[174, [[[codes(k), enc_attr(v)] for k, v in present.items()]]]])[0]
+        want_m = [0, q(want_p)] if want_p is not None else [1]
+        got_m = [0, q(got_p)] if got_p is not None else [1]
+        if mo[0] != got_m or mo[1] != want_m:
+            ctx.disagree('what=cbf_period_tie', case, got_m, mo, 'CBF dump period differs from the model / documented chain',
+                         kind='tie')
+    ctx.traces_validated += 1
+    ctx.note_case(('cbf', repr(sorted(t.items())), drop), sample=dict(kind='cbf_chain', **case))
+    ctx.count('cbf_chain:%s' % ('complete' if drop is None else drop[0]))
+    ctx.count('cbf_chain:start_' + c17.where(t))
